@@ -66,7 +66,10 @@ type c07op struct {
 }
 
 func c07Ops() []c07op {
-	ops := []c07op{{"get", 0}, {"search", 0}, {"rules", 0}, {"event", 0}, {"write", 0}, {"past", 0}, {"past-boundary", 0}, {"reload", 0}}
+	ops := []c07op{{"get", 0}, {"search", 0}, {"rules", 0}, {"event", 0}, {"write", 0}, {"past", 0}, {"past-boundary", 0}, {"reload", 0},
+		// the same observations while the storage refuses the next mutating call (the
+		// lazy purge of an expired item): the item must stay unobservable all the same
+		{"get!", 0}, {"search!", 0}, {"rules!", 0}, {"event!", 0}}
 	for i := range c07Instants {
 		ops = append(ops, c07op{"advance", i})
 	}
@@ -89,6 +92,8 @@ type c07inst struct {
 	set    func(time.Time)
 	ctx    *core.Context
 	store  *core.MemStorage
+	rec    *lib.RecStore // what the location writes through (fault injection)
+	faulty bool          // the current observation runs with a storage fault armed
 	loc    *core.Location
 	w      *lib.Worker
 	stored bool      // model: item x written and not yet known-expired-and-observed
@@ -171,8 +176,9 @@ func (in *c07inst) noteExpires(x interface{}, via string) *lib.Violation {
 }
 
 func (in *c07inst) afterObservation(via string) *lib.Violation {
-	// once observed at/after expiry, the item must be gone from storage
-	if in.stored && !in.never && in.mustBeVisible() == 0 {
+	// once observed at/after expiry, the item must be gone from storage (unless the
+	// storage was made to refuse the purge during this very observation)
+	if in.stored && !in.never && in.mustBeVisible() == 0 && !in.faulty {
 		if _, have := lib.Pairs(in.ctx, in.store, "L")["x"]; have {
 			return viol("C07/"+in.kind+"/expired-item-left-in-storage", fmt.Sprintf("[%s] after %s at T0+%v (expiry T0+%v) storage still holds the item", in.cfg(), via, in.clock.Now().Sub(lib.T0), in.nomE.Sub(lib.T0)), "purged", "present")
 		}
@@ -274,6 +280,10 @@ func (in *c07inst) observe(kind string) *lib.Violation {
 }
 
 func (in *c07inst) obsErr(via string, err error) *lib.Violation {
+	if in.faulty {
+		// an observation may fail when its storage does; it showed nothing
+		return nil
+	}
 	sig := "C07/" + in.kind + "/observation-error"
 	if strings.Contains(err.Error(), "bad 'expires'") {
 		sig = "C07/" + in.kind + "/reloaded-non-canonical-expires-breaks-reads"
@@ -314,10 +324,17 @@ func (in *c07inst) Apply(opi int) *lib.Violation {
 	switch op.Kind {
 	case "get", "search", "rules", "event":
 		return in.observe(op.Kind)
+	case "get!", "search!", "rules!", "event!":
+		in.rec.FailAt = in.rec.Mutations()
+		in.faulty = true
+		v := in.observe(strings.TrimSuffix(op.Kind, "!"))
+		in.faulty = false
+		in.rec.FailAt = -1
+		return v
 	case "advance":
 		in.set(lib.T0.Add(c07Instants[op.Idx]))
 	case "reload":
-		loc, err := lib.NewLoc(in.ctx, in.kind, "L", in.store)
+		loc, err := lib.NewLoc(in.ctx, in.kind, "L", in.rec)
 		if err != nil {
 			return fviol("C07/"+in.kind+"/reload-failed", fmt.Sprintf("[%s] reload at T0+%v failed: %v", in.cfg(), now.Sub(lib.T0), err), "ok", err.Error())
 		}
@@ -406,8 +423,9 @@ func c07Scenarios(w *lib.Worker) []*lib.Scenario {
 						clk := lib.Clock()
 						ctx := lib.Ctx()
 						store := lib.MemStore(ctx)
-						return &c07inst{enc: enc, rule: rule, kind: kind, ops: ops, clock: clk, set: clk.Set, ctx: ctx, store: store,
-							loc: lib.MustLoc(ctx, kind, "L", store), w: w}
+						rec := lib.NewRecStore(store)
+						return &c07inst{enc: enc, rule: rule, kind: kind, ops: ops, clock: clk, set: clk.Set, ctx: ctx, store: store, rec: rec,
+							loc: lib.MustLoc(ctx, kind, "L", rec), w: w}
 					},
 					Enabled: func(path []int, op int) bool {
 						o := ops[op]
